@@ -198,7 +198,7 @@ def value_domain(f, dom):
         vs = [0, 1]
         if f["kind"] == "need_value":
             vs.append(f["k"])
-        if f["kind"] == "value_br":
+        if f["kind"] in ("value_br", "setv_rel"):
             vs += [f["k"], f["k"] + 1] + list(dom.get("read_consts", []))
         return sorted(set(vs))
     return [0]
@@ -535,6 +535,13 @@ def corpus():
     # ... and a branch on a symbol that is NOT held in the state: the two end states are identical (one frontier state)
     add("branch-cond-unrelated", [{"name": "C0", "funcs": [dict(setbr, const=7), fire_s, {"name": "fireK", "kind": "xset_if", "slot": 0, "a": 7, "t": 1, "b": 2}]}],
         {"kind": "slot_ne", "addr": C0, "slot": 1, "k": 2}, 2)
+    # the branch condition is on msg.value, tied to the stored argument by a later condition (arg == msg.value):
+    # a constraint of the state through the dependency closure of the slice
+    for side, b in (("lo", 1), ("hi", 2)):
+        add(f"branch-cond-related-{side}", [{"name": "C0", "funcs": [{"name": "set", "kind": "setv_rel", "slot": 0, "k": 9, "payable": True},
+                                                                     {"name": "fireS", "kind": "xset_if", "slot": 0, "a": 5, "t": 1, "b": 1},
+                                                                     {"name": "fireB", "kind": "xset_if", "slot": 0, "a": 50, "t": 1, "b": 2}]}],
+            {"kind": "slot_ne", "addr": C0, "slot": 1, "k": b}, 2)
     return cs
 
 
